@@ -1,4 +1,5 @@
 """C16 obligations."""
+from props._lexobs import lex_obs
 from vf.ch import Ob
 
 FN = ["simple_ddl_parser/ddl_parser.py:DDLParser.p_error, DDLParserError", "simple_ddl_parser/parser.py:Parser.run (output_mode validation; parse_data stubbed)",
@@ -13,9 +14,11 @@ def obligations(tier):
     t = 120 if tier == "quick" else 600
     return [
         Ob("C16.perr/p_error", "misc", "c_perror", {}, t, FN, "silent symbolic; offending token present or None (error at end of input)"),
+        Ob("C16.silent/parse_from_file", "misc", "c_plumb", {}, t, ["simple_ddl_parser/ddl_parser.py:parse_from_file"],
+           "the silent setting given through parser_settings reaches the constructor on every call and the caller's dict is not modified (replay: two calls sharing one settings dict)"),
         Ob("C16.mode/unknown", "misc", "c_mode", {}, t, FN, "output_mode any string of length <= 4 outside the 15 names; script yields nothing / a sequence / a table (symbolic); group_by_type symbolic"),
         Ob("C16.mode/valid", "misc", "c_valid_mode", {}, t, FN, "each of the 15 documented names (symbolic index) x script yields nothing / a sequence / a table", api=False),
-    ]
+    ] + lex_obs("C16", "c_case", ["alter_body", "alter_add"], tier, "supported-in-any-case")
 
 
 def solver_queries(tier, scratch):
